@@ -324,7 +324,7 @@ theorem parse_kv (t : KV) (ht : okKV po t = true) (l : Nat) (fr : Frame) (stk : 
     simp [parseToks, step, stepTop, kEof, kBraceOpen, kNewline, kString, kPropFlag,
       keyOk_step ht.1, addKid]
     rw [parse_list cs ht.2 (l + 2) ⟨.named n, []⟩ (⟨fr.kind, fr.kids⟩ :: stk) (Or.inr (by simp)) false]
-    simp [parseToks, step, stepTop, kEof, kBraceOpen, kNewline, kString, kBraceClose, hsb']
+    simp [parseToks, step, stepTop, closeInto, kEof, kBraceOpen, kNewline, kString, kBraceClose, hsb']
 theorem parse_list (ts : List KV) (ht : okList po ts = true) (l : Nat) (fr : Frame) (stk : List Frame)
     (hsb : po.singleBlock = false ∨ fr.kind ≠ .root) (b : Bool)
     (more : List Obs) (err : Option (Err × Nat)) :
@@ -343,5 +343,188 @@ theorem parse_list (ts : List KV) (ht : okList po ts = true) (l : Nat) (fr : Fra
 end
 
 end parseTree
+
+/-! ## the parser machine never reaches its `internal` branches -/
+
+set_option linter.unusedSimpArgs false
+
+/-- Invariant of the parser machine: the block stack is never empty; while a block opening is
+required the keyvalue waiting for it is the last child of the current block; and inside the loop
+body (any mode but `top`) no block opening is pending. -/
+def invB (ps : PState) : Bool :=
+  (match ps.stack, ps.blockLine with
+    | [], _ => false
+    | ⟨_, .block _ _ :: _⟩ :: _, .expect => true
+    | _ :: _, .expect => false
+    | _ :: _, _ => true) &&
+  (match ps.mode with
+    | .top => true
+    | _ => ps.blockLine == .none)
+
+def okRes : PResult → Bool
+  | .err .internal _ => false
+  | _ => true
+
+def okOut : Out → Bool
+  | .cont ps => invB ps
+  | .done r => okRes r
+
+@[simp high] theorem okRes_single_or (x : Option KV) :
+    okRes (match x with | some kv => .single kv | none => .err .pyIndexError none) = true := by
+  cases x <;> rfl
+
+theorem stepTop_inv (po : ParseOpts) (ps : PState) (t : Obs) (h : invB ps = true) :
+    okOut (stepTop po ps t) = true := by
+  obtain ⟨stack, bl, cfr, mode⟩ := ps
+  unfold stepTop finish
+  cases stack with
+  | nil => simp [invB] at h
+  | cons fr stk =>
+    obtain ⟨fk, kids⟩ := fr
+    cases bl <;> rcases kids with _ | ⟨(_ | _), tl⟩ <;> simp only [invB] at h <;>
+      (repeat' split) <;>
+      (first | rfl | (simp_all [okOut, okRes, invB]; done)
+             | (cases mode <;> simp_all [okOut, okRes, invB, kString, kNewline]; done))
+
+theorem placeFlagged_head (g : Bool) (ps : PState) (kv : KV) (f : KV → Bool) (stk' : List Frame)
+    (h : placeFlagged g ps kv f = some stk') : ∃ fk kids tl, stk' = ⟨fk, kv :: kids⟩ :: tl := by
+  unfold placeFlagged at h
+  (repeat' split at h) <;> simp_all <;> subst h <;> exact ⟨_, _, _, rfl⟩
+
+theorem step_inv (po : ParseOpts) (fold : Char → List Char) (ps : PState) (t : Obs)
+    (h : invB ps = true) : okOut (step po fold ps t) = true := by
+  obtain ⟨stack, bl, cfr, mode⟩ := ps
+  cases stack with
+  | nil => simp [invB] at h
+  | cons fr stk =>
+    obtain ⟨fk, kids⟩ := fr
+    cases mode with
+    | top => exact stepTop_inv po _ t h
+    | afterName name =>
+      have hb : bl = .none := by cases bl <;> simp_all [invB]
+      subst hb
+      simp only [step]
+      split
+      · simp_all [okOut, invB]
+      · split
+        · (repeat' split) <;> simp_all [okOut, okRes, invB]
+        · apply stepTop_inv; simp [invB, addKid]
+    | flagBlockNl name flag =>
+      have hb : bl = .none := by cases bl <;> simp_all [invB]
+      subst hb
+      simp only [step]
+      split
+      · rfl
+      · split
+        · cases hp : placeFlagged _ _ _ _ with
+          | none => rfl
+          | some stk' =>
+            obtain ⟨fk', kids', tl', rfl⟩ := placeFlagged_head _ _ _ _ _ hp
+            simp [okOut, invB]
+        · simp [okOut, invB]
+    | afterValue name value =>
+      have hb : bl = .none := by cases bl <;> simp_all [invB]
+      subst hb
+      simp only [step]
+      split
+      · simp_all [okOut, invB]
+      · split
+        · split
+          · apply stepTop_inv; simp [invB, addKid]
+          · rfl
+        · split
+          · rfl
+          · apply stepTop_inv; simp [invB, addKid]
+    | flagLeafNl name value flag =>
+      have hb : bl = .none := by cases bl <;> simp_all [invB]
+      subst hb
+      simp only [step]
+      split
+      · rfl
+      · split
+        · cases hp : placeFlagged _ _ _ _ with
+          | none => rfl
+          | some stk' =>
+            obtain ⟨fk', kids', tl', rfl⟩ := placeFlagged_head _ _ _ _ _ hp
+            simp only []
+            split
+            · rfl
+            · simp [okOut, invB]
+        · simp [okOut, invB]
+
+def isDone : Out → Bool
+  | .done _ => true
+  | .cont _ => false
+
+theorem step_eof_done (po : ParseOpts) (fold : Char → List Char) (ps : PState) (t : Obs)
+    (h : t.kind = 0) : isDone (step po fold ps t) = true := by
+  obtain ⟨stack, bl, cfr, mode⟩ := ps
+  cases mode with
+  | afterValue name value =>
+    by_cases hc : (po.singleBlock && topIsRoot stack) = true <;>
+      simp [step, hc, isDone, stepTop, h, kEof, kPropFlag, kString]
+  | _ =>
+    simp only [step, stepTop, h, kEof, kPropFlag, kString, kNewline] <;>
+      (repeat' split) <;> (first | rfl | (simp_all [isDone]; done))
+
+theorem runAux_last (T : Tables) (o : Opts) (fold : Char → List Char) :
+    ∀ (n : Nat) (st : St) (inp : List Char) (acc : List Obs),
+      (runAux T o fold n st inp acc).err = none →
+      ∃ pre v l, (runAux T o fold n st inp acc).toks = pre ++ [⟨0, v, l⟩] := by
+  intro n
+  induction n with
+  | zero => intro st inp acc h; simp [runAux] at h
+  | succ n ih =>
+    intro st inp acc h
+    rw [runAux] at h ⊢
+    split at h
+    · simp at h
+    · rename_i k v st' rest heq
+      by_cases hk : k = Kind.eof
+      · simp only [hk, if_true] at h ⊢
+        exact ⟨acc.reverse, v, st'.line, by simp [Kind.code]⟩
+      · simp only [hk, if_false] at h ⊢
+        exact ih _ _ _ h
+
+theorem parseToks_ok (po : ParseOpts) (fold : Char → List Char) :
+    ∀ (toks : List Obs) (ps : PState) (err : Option (Err × Nat)), invB ps = true →
+      (err = none → ∃ pre v l, toks = pre ++ [⟨0, v, l⟩]) →
+      okRes (parseToks po fold ps toks err) = true := by
+  intro toks
+  induction toks with
+  | nil =>
+    intro ps err _ hl
+    cases err with
+    | none => obtain ⟨pre, v, l, h⟩ := hl rfl; simp at h
+    | some e => obtain ⟨e, l⟩ := e; simp [parseToks, okRes]
+  | cons t ts ih =>
+    intro ps err hinv hl
+    rw [parseToks]
+    have hs := step_inv po fold ps t hinv
+    cases hstep : step po fold ps t with
+    | done r => rw [hstep] at hs; simpa [okOut] using hs
+    | cont ps' =>
+      rw [hstep] at hs
+      simp only [okOut] at hs
+      simp only
+      apply ih ps' err hs
+      intro he
+      obtain ⟨pre, v, l, h⟩ := hl he
+      cases pre with
+      | nil =>
+        simp at h
+        obtain ⟨rfl, rfl⟩ := h
+        have hr := step_eof_done po fold ps ⟨0, v, l⟩ rfl
+        rw [hstep] at hr; simp [isDone] at hr
+      | cons p pre' =>
+        simp at h
+        exact ⟨pre', v, l, h.2⟩
+
+theorem parse_ok (T : Tables) (po : ParseOpts) (fold : Char → List Char) (text : List Char) :
+    okRes (parse T po fold text) = true := by
+  unfold parse parseRun run
+  apply parseToks_ok
+  · simp [initState, invB]
+  · exact runAux_last T _ fold _ _ _ _
 
 end C01
